@@ -17,6 +17,18 @@ CLAIMED = {
              "transform lists are not modelled (the library itself raises ValueError when composing them).",
         technique="Lean 4 proof (induction over transform lists, ring/linear_combination over a field) + differential correspondence model vs code",
         ref="DESIGN.md §4 C04"),
+    "C12": dict(
+        text="Lean 4 theorems over an arbitrary linearly ordered field about the transcribed Length class: every unit's value() equals "
+             "the CSS ratio (px/unitless/pt/pc/in exactly; %/em/ex/vw/vh/vmin/vmax against the supplied context; unresolvable lengths stay "
+             "symbolic), and for all amounts and all unit pairs a+b, a-b resolve to the sum/difference of the resolved values, a/b is the "
+             "ratio, a<b the numeric order, a==b equality within ERROR, commensurable pairs are never rejected. mm/cm are proved to "
+             "resolve with the library's 6-digit inch constants (known finding, relative error <= 5.4e-7, bound proved). The model is "
+             "tied to the code by exhaustive differential execution over all 14x14 unit pairs x 5 operators plus generated amounts and "
+             "contexts; an exact-rational CSS oracle is evaluated on the implementation.",
+        note="Trusted: Lean kernel + standard axioms; IEEE rounding (comparisons within 1e-9 of a tie are not judged); float(str); "
+             "Python re for REGEX_LENGTH (scanner validated by the stream); Viewbox construction abstracted to (width,height).",
+        technique="Lean 4 proof (case analysis over unit pairs + field arithmetic) + exhaustive differential correspondence + exact-rational oracle",
+        ref="DESIGN.md §4 C12"),
 }
 ALL = ["C%02d" % i for i in range(1, 21)]
 
